@@ -10,6 +10,8 @@ def run(tier, seed):
     rng, q = run.rng, run.quick
     loader.load()
     tc.mc_structure(run, "C02", geoms_quick=(1, 2))
+    if not q:
+        run.model_check("MC_Structure", "MC_Structure_C02_g6_s1.cfg", timeout=3600)   # growth: a recognition site with an ambiguity code
     recipes = []
     members = tc.generic_members(rng, 1 if q else 4) + tc.part_members(rng, 1 if q else 3, mini=not q) + tc.kit_members(rng, 1 if q else 4)
     for cspec, s, marks in members:
